@@ -262,11 +262,14 @@ def run_case(case):
         sv = d.schema_validator
         sites = ['set_type_transform/default', 'set_type_transform/drop', 'set_type_transform/clear', 'set_type_transform/ignore',
                  'add_field_callable', 'add_computed_callable', 'filter_condition', 'validate_field_fn', 'sort_key_callable',
-                 'finalizer_callback', 'finalizer_callback_stats', 'finalizer_callback_stats_optional', 'printer_header_print']
+                 'finalizer_callback', 'finalizer_callback_stats', 'finalizer_callback_stats_optional', 'printer_header_print',
+                 'conditional_predicate', 'conditional_flow_factory']
         for site in sites:
             for via in ('process', 'results'):
                 cls = rng.choice(['ValueError', 'TypeError', 'KeyError', 'CastError', 'RuntimeError', 'AssertionError',
-                                  'ArithmeticError', 'PrivateError'])
+                                  'ArithmeticError', 'PrivateError', 'IndexError', 'AttributeError'])
+                if site.startswith('conditional') and via == 'process':
+                    cls = rng.choice(['KeyError', 'IndexError', 'AttributeError', 'TypeError'])
                 tag = 'cb%s_%s_%s' % (case['pos'], site.replace('/', '_'), via)
                 injected = ArithmeticError('injected ' + tag) if cls == 'ArithmeticError' else faultlab.make_exception(cls, tag)
                 at_row = rng.choice([0, 5, 11])
@@ -307,6 +310,15 @@ def run_case(case):
 
                     def header(name, kw=None, **kws):
                         raise injected
+
+                    def pred_raises(dp):
+                        raise injected
+
+                    def pred_true(dp):
+                        return True
+
+                    def factory_raises(dp):
+                        raise injected
                     pol = {'default': {}, 'drop': {'on_error': sv.drop}, 'clear': {'on_error': sv.clear},
                            'ignore': {'on_error': sv.ignore}}
                     step = {
@@ -321,6 +333,8 @@ def run_case(case):
                         'finalizer_callback_stats': lambda: d.finalizer(fin_stats),
                         'finalizer_callback_stats_optional': lambda: d.finalizer(fin_stats_opt),
                         'printer_header_print': lambda: d.printer(header_print=header, table_print=lambda *a, **k: None),
+                        'conditional_predicate': lambda: d.conditional(pred_raises, d.Flow(d.add_field('z', 'integer', 1))),
+                        'conditional_flow_factory': lambda: d.conditional(pred_true, factory_raises),
                     }[site.split('/')[0]]()
                     st = [[dict(r) for r in rows_], step, d.dump_to_path('CD_' + tag_),
                           d.checkpoint('CC', checkpoint_path='ccp_' + tag_)]
